@@ -188,20 +188,20 @@ End WithRows.
 Lemma merge_passthrough c (b : batch P) rows :
   c_num_sentinel c = 0 \/ b_downgraded b = true -> merge_rows c b rows = Ok rows.
 Proof.
-  intros H. unfold IMV.merge_rows, truthy. destruct H as [->| ->]; [reflexivity|].
+  intros H. unfold IMV.merge_rows, merge_guard, composite_sentinel, rowcount_differs, truthy. destruct H as [->| ->]; [reflexivity|].
   rewrite andb_false_r. reflexivity.
 Qed.
 
 Lemma merge_implicit c (b : batch P) rows : c_num_sentinel c = 1 -> b_downgraded b = false ->
   c_implicit c = true -> merge_rows c b rows = Ok (sort_rows rows).
-Proof. intros H1 H2 H3. unfold IMV.merge_rows, truthy. rewrite H1, H2, H3. reflexivity. Qed.
+Proof. intros H1 H2 H3. unfold IMV.merge_rows, merge_guard, composite_sentinel, rowcount_differs, truthy. rewrite H1, H2, H3. reflexivity. Qed.
 
 Lemma merge_implicit_composite c (b : batch P) rows : 1 < c_num_sentinel c -> b_downgraded b = false ->
   c_implicit c = true -> merge_rows c b rows = Raise AssertionError.
 Proof.
-  intros H1 H2 H3. unfold IMV.merge_rows, truthy. rewrite H2, H3.
+  intros H1 H2 H3. unfold IMV.merge_rows, merge_guard, composite_sentinel, rowcount_differs, truthy. rewrite H2, H3.
   destruct (c_num_sentinel c =? 0) eqn:E; [lia|]. cbn [negb andb].
-  destruct (1 <? c_num_sentinel c) eqn:E2; [reflexivity|lia].
+  destruct (c_num_sentinel c >? 1) eqn:E2; [reflexivity|lia].
 Qed.
 
 (* sentinel columns were selected but no client-side value reaches them and the dialect has no
@@ -209,7 +209,7 @@ Qed.
 Lemma merge_no_keys c (b : batch P) rows : c_num_sentinel c <> 0 -> b_downgraded b = false ->
   c_implicit c = false -> c_has_keys c = false -> merge_rows c b rows = Raise AssertionError.
 Proof.
-  intros H1 H2 H3 H4. unfold IMV.merge_rows, truthy. rewrite H2, H3, H4.
+  intros H1 H2 H3 H4. unfold IMV.merge_rows, merge_guard, composite_sentinel, rowcount_differs, truthy. rewrite H2, H3, H4.
   destruct (c_num_sentinel c =? 0) eqn:E; [lia|]. reflexivity.
 Qed.
 
@@ -217,7 +217,7 @@ Lemma merge_explicit_sound c (b : batch P) rows out : c_num_sentinel c <> 0 -> b
   c_implicit c = false -> merge_rows c b rows = Ok out ->
   map sent_of_row out = map sent_of_param (b_items b) /\ incl out rows /\ length out = length (b_items b).
 Proof.
-  intros H1 H2 H3. unfold IMV.merge_rows, truthy. rewrite H2, H3.
+  intros H1 H2 H3. unfold IMV.merge_rows, merge_guard, composite_sentinel, rowcount_differs, truthy. rewrite H2, H3.
   destruct (c_num_sentinel c =? 0) eqn:E; [lia|]. cbn [negb andb].
   destruct (c_has_keys c); cbn [negb]; [|discriminate].
   destruct (Nat.eqb (dict_len rows) (length (b_items b))); cbn [negb]; [|discriminate].
@@ -233,7 +233,7 @@ Lemma merge_explicit_complete c (b : batch P) rows (row_of : P -> R) :
   NoDup (map sent_of_param (b_items b)) -> Permutation (map row_of (b_items b)) rows ->
   merge_rows c b rows = Ok (map row_of (b_items b)).
 Proof.
-  intros Hrs H1 H2 H3 H4 Hn Hp. unfold IMV.merge_rows, truthy. rewrite H2, H3, H4.
+  intros Hrs H1 H2 H3 H4 Hn Hp. unfold IMV.merge_rows, merge_guard, composite_sentinel, rowcount_differs, truthy. rewrite H2, H3, H4.
   destruct (c_num_sentinel c =? 0) eqn:E; [lia|]. cbn [negb andb].
   rewrite (dict_len_complete row_of Hrs _ _ Hn Hp), Nat.eqb_refl. cbn [negb].
   rewrite (lookup_all_complete row_of Hrs _ _ Hn Hp _ (incl_refl _)). reflexivity.
@@ -244,7 +244,7 @@ Lemma merge_rowcount_guard c (b : batch P) rows : c_num_sentinel c <> 0 -> b_dow
   c_implicit c = false -> c_has_keys c = true -> dict_len rows <> length (b_items b) ->
   merge_rows c b rows = Raise RowCountMismatch.
 Proof.
-  intros H1 H2 H3 H4 H5. unfold IMV.merge_rows, truthy. rewrite H2, H3, H4.
+  intros H1 H2 H3 H4 H5. unfold IMV.merge_rows, merge_guard, composite_sentinel, rowcount_differs, truthy. rewrite H2, H3, H4.
   destruct (c_num_sentinel c =? 0) eqn:E; [lia|]. cbn [negb andb].
   destruct (Nat.eqb (dict_len rows) (length (b_items b))) eqn:E2; [apply Nat.eqb_eq in E2; contradiction|reflexivity].
 Qed.
@@ -253,7 +253,7 @@ Lemma merge_keyerror_guard c (b : batch P) rows p : c_num_sentinel c <> 0 -> b_d
   In p (b_items b) -> (forall r, In r rows -> sent_of_row r <> sent_of_param p) ->
   merge_rows c b rows = Raise SentinelKeyError.
 Proof.
-  intros H1 H2 H3 H4 H5 Hin Hno. unfold IMV.merge_rows, truthy. rewrite H2, H3, H4.
+  intros H1 H2 H3 H4 H5 Hin Hno. unfold IMV.merge_rows, merge_guard, composite_sentinel, rowcount_differs, truthy. rewrite H2, H3, H4.
   destruct (c_num_sentinel c =? 0) eqn:E; [lia|]. cbn [negb andb].
   rewrite H5, Nat.eqb_refl. cbn [negb].
   destruct (lookup_all (map sent_of_param (b_items b)) rows) eqn:E2; [|reflexivity].
